@@ -1804,7 +1804,15 @@ Proof.
             WFg none2 none1 (fst (with_session h c f))).
   { intros c f Hf. unfold with_session. destruct (aget (h_conns h) c) as [cn|] eqn:Hc; [|exact W].
     destruct (c_sess cn) as [sid|]; [|exact W]. destruct (get_sess h sid) as [s|] eqn:Hs; [|exact W]. eauto. }
-  destruct o as [c addr|c hl|c rn rs rep|c to tag|c to tag|c|c|secs|b signas room q|c q|c to mk stream media|tok ok|c kindn key val|pos]; cbn [step].
+  destruct o as [c addr|c hl|c rn rs rep|c to tag|c to tag|c|c|secs|b signas room q|c q|c to mk stream media|tok ok|c kindn key val|pos|c hl late]; cbn [step].
+  15:{ (* a hello whose connection is closed while it is processed *)
+    destruct (aget (h_conns h) c) as [cn|] eqn:Hc; [|exact W]. destruct (c_sess cn) eqn:Hcs; [exact W|].
+    destruct hl as [b u rej|b u t|b tok f d|i]; try exact W.
+    - destruct rej; [exact W|]. destruct (h_nb h <=? b); [exact W|].
+      match goal with |- context [close_conn ?hh c] => destruct (close_conn hh c) as [h2 o2] eqn:H2;
+        assert (W2 : WFg none2 none1 h2) by (rewrite (fst_eq _ _ _ H2); apply wf_close_conn; destruct late; [eapply wf_equiv; [apply equiv_nextsid|exact W]|exact W]) end.
+      exact W2.
+    - now apply wf_close_conn. }
   - destruct (aget (h_conns h) c); [exact W|]. cbn [fst]. now apply wf_set_conn_nosess.
   - destruct (aget (h_conns h) c) as [cn|] eqn:Hc; [|exact W]. destruct (c_sess cn) eqn:Hcs; [exact W|].
     apply wf_do_hello; [now apply wf_set_conn_nosess|]. hsimpl. apply aget_aset_same.
